@@ -166,7 +166,7 @@ structure Match where
 
 /-- `#line <n> "<file>"` (kind `m_line`). -/
 def matchLine (st : LState) : Option Match :=
-  if lenIdentMatch (bytes "#line") st.rest 0 == 0 then none else
+  if lenIdentMatch (kwLine) st.rest 0 == 0 then none else
   let r0 := st.rest.drop 5
   let (sep, r1) := match r0 with | _ :: r => (1, r) | [] => (0, [])
   let numStr := r1.takeWhile (fun c => c != 10 && c != 32)
@@ -194,11 +194,11 @@ def matchKind (st : LState) : TK → Option Match
   | .whitespace =>
     let (n, l, k) := scanWs st.rest 0 st.line st.col
     if n == 0 then none else some { len := n, line := l, col := k, file := st.file }
-  | .tFalse => let n := lenIdentMatch (bytes "false") st.rest 0
+  | .tFalse => let n := lenIdentMatch (kwFalse) st.rest 0
     if n == 0 then none else some { len := n, line := st.line, col := st.col + n, file := st.file }
-  | .tTrue => let n := lenIdentMatch (bytes "true") st.rest 0
+  | .tTrue => let n := lenIdentMatch (kwTrue) st.rest 0
     if n == 0 then none else some { len := n, line := st.line, col := st.col + n, file := st.file }
-  | .tPrivate => let n := lenIdentMatch (bytes "private") st.rest 0
+  | .tPrivate => let n := lenIdentMatch (kwPrivate) st.rest 0
     if n == 0 then none else some { len := n, line := st.line, col := st.col + n, file := st.file }
   | .curlyO | .curlyC | .roundO | .roundC | .edgeO | .edgeC | .semicolon | .comma | .equal =>
     some { len := 1, line := st.line, col := st.col + 1, file := st.file }
@@ -276,6 +276,6 @@ def lexAll : Nat → LState → List Token
     let (t, st') := next st
     if t.kind == .eof || t.kind == .invalid then [t] else t :: lexAll f st'
 
-def lexText (s : List B) : List Token := lexAll (s.length + 1) (LState.init s (bytes "f"))
+def lexText (s : List B) : List Token := lexAll (s.length + 1) (LState.init s [102])
 
 end Sqf
